@@ -6,7 +6,7 @@ import ast
 from report import AnalysisError
 from pyfront import (Repo, CFG, canon, guard_literals, literals, qualname,
                      calls_in, attr_accesses, _Subst)
-from pyutil import params, deep_subst, find_calls, lit_fmt, rel, name_of, branch_subst
+from pyutil import params, deep_subst, find_calls, lit_fmt, rel, name_of, branch_subst, fmt_norm
 from consteval import Ev, fold, Unknown, Raised
 import exprnf as X
 
@@ -97,8 +97,11 @@ def r2_indication(L, repo):
         L.require("C09.R2", F, fn, "indication is sent to every link exactly at frames divisible by the period",
                   lit_fmt(want), lit_fmt(lits), line=c.lineno)
         L.require("C09.R2", F, fn, "send goes through the loop's link", V, canon(c.func.value), line=c.lineno)
-        payload = canon(c.args[0], subst) if c.args else None
-        L.require("C09.R2", F, fn, "indication payload", "'IND CLOCK %u\\x00' % self.clck_src", payload, line=c.lineno)
+        pe = c.args[0] if c.args else None
+        if isinstance(pe, ast.Name) and pe.id in subst:
+            pe = subst[pe.id]
+        L.require("C09.R2", F, fn, "indication payload 'IND CLOCK <fn>' + NUL with the current frame number",
+                  ("IND CLOCK {}\x00", ["self.clck_src"]), fmt_norm(pe) if pe is not None else None, line=c.lineno)
         brk = [n for n in ast.walk(lp) if isinstance(n, (ast.Break, ast.Continue, ast.Return))]
         L.require("C09.R2", F, fn, "break/continue inside the link loop", 0, len(brk))
         # the counter is not advanced before the indication
